@@ -17,9 +17,11 @@ use ark_ff::{
     BigInt, BigInteger, Field, MontFp, PrimeField, Zero,
 };
 use ark_poly::{
+    multivariate::{SparsePolynomial as MvPolynomial, SparseTerm, Term},
     univariate::{DenseOrSparsePolynomial, DensePolynomial, SparsePolynomial},
-    DenseUVPolynomial, EvaluationDomain, Polynomial, Radix2EvaluationDomain,
+    DenseMVPolynomial, DenseUVPolynomial, EvaluationDomain, Polynomial, Radix2EvaluationDomain,
 };
+use ark_serialize::{CanonicalDeserialize, CanonicalSerialize, Compress, Validate};
 use ark_test_curves::{bls12_381, ed_on_bls12_381, mnt6_753, secp256k1};
 use num_bigint::BigUint;
 use std::collections::hash_map::DefaultHasher;
@@ -904,6 +906,221 @@ fn run_poly<F: ark_ff::FftField + PrimeField>(a: &[Arg]) -> Vec<Arg> {
     }
 }
 
+// ---- multivariate sparse polynomials ----
+// Layout: coq/C19/MvRun.v; expression codes: coq/C19/MvModel.v.
+type Mv<F> = MvPolynomial<F, SparseTerm>;
+fn mv_operand<F: PrimeField>(a: &[Arg], i: usize, slice: bool) -> Mv<F> {
+    let nv = to_usize(&a[i][0]);
+    let coeffs: Vec<F> = a[i + 1].iter().map(|v| F::from(u(v))).collect();
+    let lens: Vec<usize> = a[i + 2].iter().map(to_usize).collect();
+    let (vars, pows) = (&a[i + 3], &a[i + 4]);
+    assert_eq!(coeffs.len(), lens.len(), "harness: one length per coefficient");
+    assert_eq!(vars.len(), pows.len(), "harness: one power per variable");
+    assert_eq!(lens.iter().sum::<usize>(), vars.len(), "harness: term lengths");
+    let mut k = 0;
+    let mut terms = Vec::new();
+    for (c, n) in coeffs.iter().zip(lens) {
+        let t: Vec<(usize, usize)> = (k..k + n).map(|j| (to_usize(&vars[j]), to_usize(&pows[j]))).collect();
+        k += n;
+        terms.push((*c, SparseTerm::new(t)));
+    }
+    if slice {
+        Mv::<F>::from_coefficients_slice(nv, &terms)
+    } else {
+        Mv::<F>::from_coefficients_vec(nv, terms)
+    }
+}
+fn mvexpr<F: PrimeField>(e: u64, p: &Mv<F>, q: &Mv<F>, r: &Mv<F>, f: F) -> Mv<F> {
+    let zero = Mv::<F>::zero;
+    let scaled = |mut x: Mv<F>, f: F| {
+        x += (f, q);
+        x
+    };
+    match e {
+        0 => p.clone(),
+        1 => q.clone(),
+        2 => r.clone(),
+        3 => p.clone() + q.clone(),
+        4 => q + p,
+        5 => {
+            let mut x = p.clone();
+            x += q;
+            x
+        },
+        6 => p - q,
+        7 => {
+            let mut x = p.clone();
+            x -= q;
+            x
+        },
+        8 => p + &(-q.clone()),
+        9 => -(q - p),
+        10 => scaled(p.clone(), f),
+        11 => zero(),
+        12 => p - p,
+        13 => p + &(-p.clone()),
+        14 => &(p + q) - q,
+        15 => -p.clone(),
+        16 => -(-p.clone()),
+        17 => scaled(scaled(p.clone(), f), -f),
+        18 => scaled(p.clone(), F::zero()),
+        19 => scaled(zero(), f),
+        20 => &zero() + p,
+        21 => p + &zero(),
+        22 => &(p - q) + q,
+        23 => {
+            let mut x = p.clone();
+            x -= p;
+            x
+        },
+        24 => scaled(zero(), F::zero()),
+        25 => &(p + q) + q,
+        26 => Mv::<F>::from_coefficients_vec(p.num_vars(), vec![]),
+        27 => scaled(Mv::<F>::from_coefficients_vec(p.num_vars(), vec![]), F::zero()),
+        28 => scaled(p.clone(), F::one()),
+        29 => scaled(p.clone(), -F::one()),
+        30 => scaled(scaled(p.clone(), F::zero()), F::zero()),
+        31 => &scaled(p.clone(), F::zero()) - p,
+        _ => panic!("harness: bad multivariate polynomial expression"),
+    }
+}
+fn run_mv<F: PrimeField>(a: &[Arg]) -> Vec<Arg> {
+    let (p, q, r) = (mv_operand::<F>(a, 5, false), mv_operand::<F>(a, 10, true), mv_operand::<F>(a, 15, false));
+    let f = fe::<F>(&a[3]);
+    let pt: Vec<F> = a[4].iter().map(|v| F::from(u(v))).collect();
+    let l = mvexpr(to_u64(&a[2][0]), &p, &q, &r, f);
+    let rr = mvexpr(to_u64(&a[2][1]), &p, &q, &r, f);
+    assert!((l != rr) == !(l == rr), "harness: != is not the negation of ==");
+    let z = Mv::<F>::zero();
+    let n64 = |v: usize| from_u64(v as u64);
+    let (vl, vr) = (l.evaluate(&pt), rr.evaluate(&pt));
+    ok(vec![
+        bools(&[l == rr, rr == l]),
+        bools(&[h64(&l) == h64(&rr)]),
+        bools(&[l.is_zero(), rr.is_zero(), l == z, rr == z]),
+        vec![n64(l.degree()), n64(rr.degree())],
+        vec![n64(l.terms().len()), n64(rr.terms().len())],
+        bools(&[vl == vr]),
+        cat(&[fe_out(&vl), fe_out(&vr)]),
+    ])
+}
+
+// ---- curve points obtained by deserialization ----
+// Layout: coq/C19/DecRun.v.
+fn raw_bytes(a: &Arg) -> Vec<u8> {
+    a.iter()
+        .map(|b| {
+            let v = to_u64(b);
+            assert!(v < 256, "harness: byte expected");
+            v as u8
+        })
+        .collect()
+}
+fn bytes_arg(b: &[u8]) -> Arg {
+    b.iter().map(|x| from_u64(*x as u64)).collect()
+}
+fn modes(a: &Arg, i: usize) -> (Compress, Validate) {
+    (
+        if to_u64(&a[2 * i]) != 0 { Compress::Yes } else { Compress::No },
+        if to_u64(&a[2 * i + 1]) != 0 { Validate::Yes } else { Validate::No },
+    )
+}
+fn reser<T: CanonicalSerialize>(v: &T) -> (Arg, Arg) {
+    let (mut c, mut n) = (Vec::new(), Vec::new());
+    v.serialize_compressed(&mut c).expect("serialize_compressed");
+    v.serialize_uncompressed(&mut n).expect("serialize_uncompressed");
+    (bytes_arg(&c), bytes_arg(&n))
+}
+fn failed() -> Vec<Arg> {
+    vec![vec![from_u64(0)], vec![], vec![], vec![]]
+}
+fn dec_sw<P: SWCurveConfig>(a: &[Arg]) -> Vec<Arg> {
+    let one = |i: usize| -> (Option<sw::Affine<P>>, Vec<Arg>) {
+        let bytes = raw_bytes(&a[6 + i]);
+        let (c, vm) = modes(&a[5], i);
+        let mut rd = &bytes[..];
+        match sw::Affine::<P>::deserialize_with_mode(&mut rd, c, vm) {
+            Ok(v) => {
+                let id = sw::Affine::<P>::identity();
+                let g = v.into_group();
+                let (cb, ub) = reser(&v);
+                let rel = bools(&[
+                    true,
+                    v == id,
+                    id == v,
+                    v.is_zero(),
+                    h64(&v) == h64(&id),
+                    g.into_affine() == v,
+                    g.is_zero(),
+                    g == sw::Projective::<P>::zero(),
+                ]);
+                let out = vec![
+                    cat(&[rel, vec![from_u64((bytes.len() - rd.len()) as u64)]]),
+                    cat(&[fe_out(&v.x), fe_out(&v.y), bools(&[v.infinity])]),
+                    cb,
+                    ub,
+                ];
+                (Some(v), out)
+            },
+            Err(_) => (None, failed()),
+        }
+    };
+    let (v1, mut o) = one(0);
+    let (v2, o2) = one(1);
+    o.extend(o2);
+    o.push(match (v1, v2) {
+        (Some(x), Some(y)) => {
+            let (gx, gy) = (x.into_group(), y.into_group());
+            bools(&[x == y, y == x, h64(&x) == h64(&y), gx == gy, h64(&gx) == h64(&gy)])
+        },
+        _ => vec![],
+    });
+    ok(o)
+}
+fn dec_te<P: TECurveConfig>(a: &[Arg]) -> Vec<Arg> {
+    let one = |i: usize| -> (Option<te::Affine<P>>, Vec<Arg>) {
+        let bytes = raw_bytes(&a[6 + i]);
+        let (c, vm) = modes(&a[5], i);
+        let mut rd = &bytes[..];
+        match te::Affine::<P>::deserialize_with_mode(&mut rd, c, vm) {
+            Ok(v) => {
+                let id = te::Affine::<P>::zero();
+                let g = v.into_group();
+                let (cb, ub) = reser(&v);
+                let rel = bools(&[
+                    true,
+                    v == id,
+                    id == v,
+                    v.is_zero(),
+                    h64(&v) == h64(&id),
+                    g.into_affine() == v,
+                    g.is_zero(),
+                    g == te::Projective::<P>::zero(),
+                ]);
+                let out = vec![
+                    cat(&[rel, vec![from_u64((bytes.len() - rd.len()) as u64)]]),
+                    cat(&[fe_out(&v.x), fe_out(&v.y)]),
+                    cb,
+                    ub,
+                ];
+                (Some(v), out)
+            },
+            Err(_) => (None, failed()),
+        }
+    };
+    let (v1, mut o) = one(0);
+    let (v2, o2) = one(1);
+    o.extend(o2);
+    o.push(match (v1, v2) {
+        (Some(x), Some(y)) => {
+            let (gx, gy) = (x.into_group(), y.into_group());
+            bools(&[x == y, y == x, h64(&x) == h64(&y), gx == gy, h64(&gx) == h64(&gy)])
+        },
+        _ => vec![],
+    });
+    ok(o)
+}
+
 // ---- parameters ----
 fn fld_params(cfg: u64, kind: u64) -> Vec<Arg> {
     use ark_ff::{Fp12Config, Fp3Config, Fp6Config};
@@ -1023,6 +1240,25 @@ fn run(op: &str, a: &[Arg]) -> Vec<Arg> {
             } else {
                 r
             }
+        },
+        "mvpoly_rel" => match (cfg, kind) {
+            (1, 1) => run_mv::<bls12_381::Fr>(a),
+            (5, 1) => run_mv::<F13>(a),
+            _ => unsupported(),
+        },
+        "pt_decoded_rel" => match (to_u64(&a[0][4]), cfg, kind) {
+            (0, 0, 1) => dec_sw::<bls12_381::g1::Config>(a),
+            (0, 0, 2) => dec_sw::<bls12_381::g2::Config>(a),
+            (0, 2, 1) => dec_sw::<secp256k1::Config>(a),
+            (0, 5, 1) => match to_u64(&a[0][3]) {
+                0 => dec_sw::<ToySw>(a),
+                1 => dec_sw::<ToySwB>(a),
+                2 => dec_sw::<ToySwC>(a),
+                _ => unsupported(),
+            },
+            (1, 8, 1) => dec_te::<ed_on_bls12_381::EdwardsConfig>(a),
+            (1, 5, 1) => dec_te::<ToyTe>(a),
+            _ => unsupported(),
         },
         "poly_rel" => match (cfg, kind) {
             (1, 1) => run_poly::<bls12_381::Fr>(a),
